@@ -25,7 +25,13 @@ struct Block {
     payload: *mut u8,
     payload_len: usize,
     front: usize,
+    /// electric-fence block: (mapping start, mapping length); the block is surrounded by an inaccessible page
+    map: Option<(usize, usize)>,
+    /// fenced block that was released: the whole mapping is inaccessible (any stale read or write faults)
+    sealed: bool,
 }
+
+const PAGE: usize = 4096;
 
 #[derive(Default)]
 pub struct TrackState {
@@ -54,11 +60,26 @@ fn guard_len(l: &Layout) -> usize {
     (g + a2 - 1) / a2 * a2
 }
 
-fn new_block(l: &Layout, cap: usize) -> Option<Block> {
+fn new_block(l: &Layout, cap: usize, fence: u8) -> Option<Block> {
     let bytes = l.size().checked_mul(cap).expect("Track: capacity overflow");
     if bytes == 0 { return None; }
     // a user backend may panic when it cannot provide the memory (documented for MemResizable)
     if bytes > (1usize << 34) { let _w = WindowOff::new(); panic!("Track: out of memory ({bytes} bytes requested)"); }
+    if fence != 0 && l.align() <= PAGE {
+        // electric fence: the payload ends exactly at an inaccessible page (fence 1: overruns, reads included, fault at once)
+        // or starts right after one (fence 2: underruns)
+        let body = (bytes + PAGE - 1) / PAGE * PAGE;
+        let map_len = body + PAGE;
+        unsafe {
+            let m = libc::mmap(std::ptr::null_mut(), map_len, libc::PROT_READ | libc::PROT_WRITE, libc::MAP_PRIVATE | libc::MAP_ANONYMOUS, -1, 0) as *mut u8;
+            assert!(m as isize != -1, "mmap failed");
+            let (base, payload, guard_page) = if fence == 1 { (m, m.add(body - bytes), m.add(body)) } else { (m.add(PAGE), m.add(PAGE), m) };
+            std::ptr::write_bytes(base, GUARD, body);
+            std::ptr::write_bytes(payload, POISON, bytes);
+            libc::mprotect(guard_page as *mut libc::c_void, PAGE, libc::PROT_NONE);
+            return Some(Block { base, total: body, alloc_align: 0, payload, payload_len: bytes, front: payload as usize - base as usize, map: Some((m as usize, map_len)), sealed: false });
+        }
+    }
     let g = guard_len(l);
     // payload is aligned to `align` but deliberately NOT to 2*align
     let front = g + l.align();
@@ -70,11 +91,12 @@ fn new_block(l: &Layout, cap: usize) -> Option<Block> {
         std::ptr::write_bytes(base, GUARD, total);
         let payload = base.add(front);
         std::ptr::write_bytes(payload, POISON, bytes);
-        Some(Block { base, total, alloc_align, payload, payload_len: bytes, front })
+        Some(Block { base, total, alloc_align, payload, payload_len: bytes, front, map: None, sealed: false })
     }
 }
 
 fn guards_ok(b: &Block) -> bool {
+    if b.sealed { return true; }
     unsafe {
         crate::elem::all_eq(b.base, b.front, GUARD)
             && crate::elem::all_eq(b.base.add(b.front + b.payload_len), b.total - b.front - b.payload_len, GUARD)
@@ -82,15 +104,22 @@ fn guards_ok(b: &Block) -> bool {
 }
 
 fn free_block(b: Block) {
+    if let Some((m, len)) = b.map { unsafe { libc::munmap(m as *mut libc::c_void, len); } return; }
     unsafe { System.dealloc(b.base, Layout::from_size_align(b.total, b.alloc_align).unwrap()); }
 }
 
 impl TrackState {
     fn retire(&mut self, serial: u32) {
         if let Some(pos) = self.live.iter().position(|(s, _)| *s == serial) {
-            let (s, b) = self.live.swap_remove(pos);
+            let (s, mut b) = self.live.swap_remove(pos);
             if !guards_ok(&b) { self.errs.push(format!("guard zone of block #{s} overwritten (out-of-bounds write)")); }
-            unsafe { std::ptr::write_bytes(b.payload, POISON, b.payload_len); }
+            if let Some((m, len)) = b.map {
+                // released fenced block: no access at all until the end of the transition
+                unsafe { libc::mprotect(m as *mut libc::c_void, len, libc::PROT_NONE); }
+                b.sealed = true;
+            } else {
+                unsafe { std::ptr::write_bytes(b.payload, POISON, b.payload_len); }
+            }
             self.quarantine.push((s, b));
         }
     }
@@ -101,7 +130,7 @@ impl TrackState {
         }
         for (s, b) in self.quarantine.drain(..) {
             if !guards_ok(&b) { self.errs.push(format!("guard zone of released block #{s} overwritten")); }
-            let dirty = unsafe { !crate::elem::all_eq(b.payload, b.payload_len, POISON) };
+            let dirty = !b.sealed && unsafe { !crate::elem::all_eq(b.payload, b.payload_len, POISON) };
             if dirty { self.errs.push(format!("released block #{s} written through a stale pointer")); }
             free_block(b);
         }
@@ -153,6 +182,8 @@ pub struct TrackMem {
     layout: Layout,
     pub serial: u32,
     fixed: bool,
+    /// 0 = guard zones; 1 / 2 = electric fence after / before the payload (TrackFence)
+    fence: u8,
     /// `expand` grows by exactly the requested amount (still "at least additional"): no slack for code that assumes doubling
     tight: bool,
 }
@@ -162,24 +193,26 @@ unsafe impl Sync for TrackMem {}
 
 impl TrackMem {
     fn build(layout: Layout, cap: usize, fixed: bool) -> Self { Self::build2(layout, cap, fixed, false) }
-    fn build2(layout: Layout, cap: usize, fixed: bool, tight: bool) -> Self {
+    fn build2(layout: Layout, cap: usize, fixed: bool, tight: bool) -> Self { Self::build3(layout, cap, fixed, tight, 0) }
+    fn build3(layout: Layout, cap: usize, fixed: bool, tight: bool, fence: u8) -> Self {
         with_ts(|ts| {
             let serial = ts.next_serial;
             ts.next_serial += 1;
             ts.events.push(TEv::Build { serial, size: layout.size(), align: layout.align(), cap });
-            let ptr = match new_block(&layout, cap) {
+            let ptr = match new_block(&layout, cap, fence) {
                 Some(b) => { let p = b.payload; ts.live.push((serial, b)); p }
                 None => layout.align() as *mut u8,
             };
-            TrackMem { ptr, cap, layout, serial, fixed, tight }
+            TrackMem { ptr, cap, layout, serial, fixed, tight, fence }
         })
     }
     fn relocate(&mut self, new_cap: usize) {
         let layout = self.layout;
         let (serial, old_ptr, old_cap) = (self.serial, self.ptr, self.cap);
+        let fence = self.fence;
         let new_ptr = with_ts(|ts| {
             ts.relocations += 1;
-            let nb = new_block(&layout, new_cap);
+            let nb = new_block(&layout, new_cap, fence);
             let new_ptr = match &nb { Some(b) => b.payload, None => layout.align() as *mut u8 };
             let copy = std::cmp::min(old_cap, new_cap) * layout.size();
             if copy > 0 { unsafe { std::ptr::copy_nonoverlapping(old_ptr, new_ptr, copy); } }
@@ -245,6 +278,19 @@ impl MemBuilderSizeable for Track {
     fn build_with_size(&mut self, element_layout: Layout, capacity: usize) -> TrackMem {
         TrackMem::build(element_layout, capacity, false)
     }
+}
+
+/// As `TrackTight`, but every block is mmap-ed with an inaccessible page right AFTER (FRONT = false) or BEFORE (FRONT = true)
+/// the payload, and a released block is made inaccessible until the end of the transition: an out-of-bounds or stale
+/// READ faults immediately (reported through the crash handler), not only a write.
+#[derive(Clone, Copy, Default, Debug)]
+pub struct TrackFence<const FRONT: bool>;
+impl<const FRONT: bool> MemBuilder for TrackFence<FRONT> {
+    type Mem = TrackMem;
+    fn build(&mut self, element_layout: Layout) -> TrackMem { TrackMem::build3(element_layout, 0, false, true, if FRONT { 2 } else { 1 }) }
+}
+impl<const FRONT: bool> MemBuilderSizeable for TrackFence<FRONT> {
+    fn build_with_size(&mut self, element_layout: Layout, capacity: usize) -> TrackMem { TrackMem::build3(element_layout, capacity, false, true, if FRONT { 2 } else { 1 }) }
 }
 
 /// As `Track`, but `expand(n)` grows by exactly n elements.
